@@ -161,6 +161,19 @@ inline bg_mat_sz abs_vec(const std::vector<std::vector<size_t>> &m) {
     return r;
 }
 
+// ---- alpha for unordered_set<VertexIndex>
+#include <unordered_set>
+inline bg_uset_u abs_set(const std::unordered_set<BaseGraph::VertexIndex> &S) {
+    bg_uset_u r;
+    r.hasP = S.count(G_P) != 0;
+    r.hasQ = G_P != G_Q && S.count(G_Q) != 0;
+    r.restCount = S.size() - (r.hasP ? 1 : 0) - (r.hasQ ? 1 : 0);
+    r.restBound = 0;
+    for (auto x : S)
+        if (x != G_P && x != G_Q && (bg_size)x + 1 > r.restBound) r.restBound = (bg_size)x + 1;
+    return r;
+}
+
 // ---- enumeration of small concrete graphs through the public API
 template <class L> L mk_label(int k);
 template <> inline VLabel mk_label<VLabel>(int k) { return VLabel{k}; }
